@@ -133,9 +133,9 @@ DepChoices ==
         THEN { [e |-> "Rand", impl |-> Implof("rand"), n |-> 19, out |-> s] : s \in RandPool }
         ELSE {})
   \cup { [e |-> "Memzero", impl |-> Implof("memzero"), blk |-> b, off |-> 0, len |-> blocks[b].size] :
-            b \in { x \in OwnBlocks \cup TargetBlock : ~blocks[x].wiped } }
+            b \in { x \in OwnBlocks \cup TargetBlock : ~FullyWiped(x) } }
   \cup { [e |-> "Free", impl |-> Implof("free"), blk |-> b, zero |-> TRUE] :
-            b \in { x \in OwnBlocks \cup TargetBlock : blocks[x].wiped } }
+            b \in { x \in OwnBlocks \cup TargetBlock : FullyWiped(x) } }
   \cup (IF call.op = "Encode" /\ G(call.a.lang).compose /\ Count("Nfc") = 0
         THEN { [e |-> "Nfc", impl |-> Implof("nfc"), in |-> EncodeDecomposed(SeedOf(call.a.h), call.a.lang, call.a.coin),
                 out |-> PhraseComposed(G(call.a.lang), PhraseWords(SeedOf(call.a.h), call.a.coin)),
